@@ -21,6 +21,7 @@ import (
 	"go/types"
 	"os"
 	"path/filepath"
+	"regexp"
 	"sort"
 	"strings"
 )
@@ -246,6 +247,37 @@ func readerAccepts(rst *State, bind binding) (bool, string) {
 			continue
 		}
 		var op, rhs string
+		// a reinterpreted symbol: "int16(s1) < 0" - evaluate on the bound value wrapped into that type
+		if m := reintAtomRe.FindStringSubmatch(atom); m != nil {
+			fmt.Sscanf(m[2], "%d", &id)
+			if c, ok := bind[id]; ok {
+				if rv, ok := parseSpecValue(m[4]); ok {
+					bits, signed := 0, strings.HasPrefix(m[1], "int")
+					fmt.Sscanf(strings.TrimLeft(m[1], "uint"), "%d", &bits)
+					if bits == 0 {
+						bits = 64
+					}
+					w := wrapToWidth(c, bits, signed)
+					var tok token.Token
+					switch m[3] {
+					case ">":
+						tok = token.GTR
+					case "<":
+						tok = token.LSS
+					case ">=":
+						tok = token.GEQ
+					case "<=":
+						tok = token.LEQ
+					default:
+						continue
+					}
+					if constant.Compare(w, tok, rv) != pol {
+						return false, fmt.Sprintf("reader path assumes %s is %v, the value is %s", atom, pol, constLabel(c))
+					}
+				}
+			}
+			continue
+		}
 		if n, _ := fmt.Sscanf(atom, "s%d %s %s", &id, &op, &rhs); n == 3 {
 			if c, ok := bind[id]; ok {
 				if rv, ok := parseSpecValue(rhs); ok {
@@ -975,4 +1007,30 @@ func c01DumpPrimitives(p *Program) {
 			fmt.Fprintf(os.Stderr, "  UNDECIDED %v %v\n", wr.in.Undecided, rr.in.Undecided)
 		}
 	}
+}
+
+var reintAtomRe = regexp.MustCompile(`^(u?int(?:8|16|32|64)?)\(s(\d+)\) (<|>|<=|>=) (\S+)$`)
+
+// wrapToWidth: the two's-complement value of c in an integer type of the given width.
+func wrapToWidth(c constant.Value, bits int, signed bool) constant.Value {
+	i, ok := constant.Int64Val(constant.ToInt(c))
+	if !ok {
+		if u, ok := constant.Uint64Val(constant.ToInt(c)); ok {
+			i = int64(u)
+		} else {
+			return c
+		}
+	}
+	if bits >= 64 {
+		if signed {
+			return constant.MakeInt64(i)
+		}
+		return constant.MakeUint64(uint64(i))
+	}
+	mask := int64(1)<<uint(bits) - 1
+	v := i & mask
+	if signed && v&(int64(1)<<uint(bits-1)) != 0 {
+		v -= int64(1) << uint(bits)
+	}
+	return constant.MakeInt64(v)
 }
